@@ -86,7 +86,7 @@ StateOK(name, j) ==
     CASE name = "C03" -> Forest(O)
       [] name = "C04" -> Forest(O) => TidOK(O)
       [] name = "C05" -> Forest(O) => LidOK(O)
-      [] name = "C06" -> (Forest(O) /\ TidOK(O) /\ LidOK(O)) => (LookupOK(O) /\ NoDupLookups(j))
+      [] name = "C06" -> Forest(O) => (LookupOK(O) /\ NoDupLookups(j))
       [] name = "C07" -> Forest(O) => SegOK(O)
       [] name = "C08" -> (Forest(O) /\ SegOK(O)) => (AreaOK(O) /\ PosOK(O) /\ ShapeOK(O))
       [] name = "C09" -> (Forest(O) /\ SegOK(O)) => IoUOK(O)
